@@ -2,7 +2,7 @@
    The two conjugation tables, the Pauli product table and CLIFFORD_GATE_NAMES are
    parameters (generated from /repo); the fold over the factors of the label mirrors the
    Python loop (any enumeration order of the frozenset: the label is an arbitrary list). *)
-From Coq Require Import ZArith List Bool Arith Lia Reals FunctionalExtensionality.
+From Coq Require Import ZArith List Bool Arith Lia Reals Lra FunctionalExtensionality.
 From QP Require Import Cx Zw Asum FMat Lpoly Apply Local Gates Rsem.
 From QPM Require Import Transpile Pauli.
 Import ListNotations.
@@ -308,6 +308,119 @@ Proof.
       * intros psi' b'. simpl. unfold lsemL, csem; simpl. rewrite zw_eval_1. ring.
       * rewrite <- lsemL_rev by auto. apply H.
     + rewrite <- Harity in Hok. simpl in Hok. contradiction.
+Qed.
+
+(* the returned label has distinct qubit indices *)
+Theorem conj_nodup g l l' c :
+  gate_wfb g = true -> gas g = [] -> NoDup (keys l) -> conj g l = Some (l', c) -> NoDup (keys l').
+Proof.
+  intros Hwf Has Hnd Hc. unfold conj in Hc.
+  destruct (existsb (gkind_eqb (gk g)) cnames) eqn:En; simpl in Hc; [|discriminate].
+  apply existsb_exists in En as [k [Hk Ek]]. apply gkind_eqb_eq in Ek. subst k.
+  unfold gate_wfb in Hwf. apply andb_true_iff in Hwf as [Hwf Hndq].
+  apply andb_true_iff in Hwf as [Harity Hpar]. apply Nat.eqb_eq in Harity, Hpar.
+  destruct g as [k qs as_]. simpl in *. subst as_.
+  destruct (gkind_eqb k KI) eqn:EI; [inversion Hc; subst; exact Hnd|].
+  assert (Hne : k <> KI) by (intros ->; discriminate).
+  pose proof (kind_ok k Hk Hne) as Hok.
+  destruct qs as [|t [|t2 [|? ?]]]; simpl in Harity.
+  - destruct k; simpl in Harity; discriminate.
+  - assert (Ha : arity k = 1%nat) by auto.
+    destruct (fold1_sound k t _ Hk Hne Ha eq_refl l [] [] zw1 l' c) as [Hkeys _]; auto.
+    + intros psi' b'. simpl. unfold lsemL, csem; simpl. rewrite zw_eval_1. ring.
+    + rewrite Hkeys. exact Hnd.
+  - assert (Ha : arity k = 2%nat) by auto.
+    assert (Hct : t <> t2).
+    { simpl in Hndq. apply andb_true_iff in Hndq as [H1 _]. apply negb_true_iff in H1. simpl in H1.
+      apply orb_false_iff in H1 as [H1 _]. apply Nat.eqb_neq in H1. exact H1. }
+    destruct (fold2_sound k t t2 _ Hk Hne Ha Hct eq_refl l [] [] zw1 l' c) as [H _]; auto.
+    + constructor.
+    + intros psi' b'. simpl. unfold lsemL, csem; simpl. rewrite zw_eval_1. ring.
+  - rewrite <- Harity in Hok. simpl in Hok. contradiction.
+Qed.
+
+(* ---------------------------------------------------------------- the coefficient is +1 or -1 *)
+(* every Pauli string is an involution *)
+Lemma psem_invol i p psi : lsem (psem (i, p)) (lsem (psem (i, p)) psi) = psi.
+Proof.
+  assert (Hchk : check_exact (seq 0 1) (map eg [mkG (pk p) [0%nat] []; mkG (pk p) [0%nat] []]) (map eg []) zw1 = true)
+    by (destruct p; vm_compute; reflexivity).
+  pose proof (exact_placed 1 [mkG (pk p) [0%nat] []; mkG (pk p) [0%nat] []] [] zw1 [i] Hchk (nodup1 i)) as E.
+  apply (f_equal (fun f => f psi)) in E. unfold scaleop in E. cbn [map] in E. rewrite <- !pgate_place in E.
+  change (csem [ksem (pgate (i, p)); ksem (pgate (i, p))] psi) with (lsem (psem (i, p)) (lsem (psem (i, p)) psi)) in E.
+  rewrite E. apply functional_extensionality; intros b. rewrite zw_eval_1. unfold csem. cbn. ring.
+Qed.
+
+Lemma lsemL_invol l : NoDup (keys l) -> forall psi, lsemL l (lsemL l psi) = psi.
+Proof.
+  induction l as [|[i p] l IH]; intros Hnd psi; [reflexivity|].
+  cbn [keys map] in Hnd. inversion Hnd as [|? ? Hi Hnd']; subst.
+  assert (E1 : forall phi, lsemL ((i, p) :: l) phi = lsemL l (lsem (psem (i, p)) phi)) by reflexivity.
+  assert (E2 : forall phi, lsemL ((i, p) :: l) phi = lsem (psem (i, p)) (lsemL l phi)).
+  { intros phi. unfold lsemL. cbn [map]. rewrite (psem_comm_list i p l Hi), csem_app'. reflexivity. }
+  rewrite E1, E2 at 1. rewrite psem_invol. apply IH, Hnd'.
+Qed.
+
+(* kinds with an exact inverse kind (checked by computation on the regenerated name list) *)
+Definition inv_kind (k : gkind) : gkind :=
+  match k with
+  | KS => KSdag | KSdag => KS | KSqrtX => KSqrtXdag | KSqrtXdag => KSqrtX
+  | KSqrtY => KSqrtYdag | KSqrtYdag => KSqrtY | KT => KTdag | KTdag => KT
+  | _ => k
+  end.
+Definition has_inverse (k : gkind) : bool :=
+  let qs := seq 0 (arity k) in
+  check_equiv2 qs (map eg [mkG k qs []; mkG (inv_kind k) qs []]) (map eg []).
+
+Lemma C_integral (x y : C) : x * y = C0 -> x = C0 \/ y = C0.
+Proof.
+  intros H. destruct (Ceq_dec x C0) as [|Hx]; [left; assumption|right].
+  transitivity (Cinv x * (x * y)); [|rewrite H; ring].
+  transitivity ((x * Cinv x) * y); [rewrite (Cmul_inv x Hx); ring|ring].
+Qed.
+
+Theorem conj_sign g l l' c :
+  gate_wfb g = true -> gas g = [] -> NoDup (keys l) -> has_inverse (gk g) = true ->
+  conj g l = Some (l', c) -> zw_eval c = C1 \/ zw_eval c = - C1.
+Proof.
+  intros Hwf Has Hnd Hinv Hc.
+  pose proof (conj_sound g l l' c Hwf Has Hnd Hc) as S.
+  pose proof (conj_nodup g l l' c Hwf Has Hnd Hc) as Hnd'.
+  set (e := zw_eval c) in *. set (U := ksem g) in *.
+  (* U = e^2 U *)
+  assert (H2 : forall psi b, lsem U psi b = e * e * lsem U psi b).
+  { intros psi b. rewrite <- (lsemL_invol l Hnd psi) at 1. rewrite S.
+    replace (lsem U (lsemL l psi)) with (fun b0 => e * lsemL l' (lsem U psi) b0)
+      by (apply functional_extensionality; intros; symmetry; apply S).
+    rewrite lsemL_scale, (lsemL_invol l' Hnd'). ring. }
+  (* U has a left inverse *)
+  unfold gate_wfb in Hwf. apply andb_true_iff in Hwf as [Hwf Hndq].
+  apply andb_true_iff in Hwf as [Harity _]. apply Nat.eqb_eq in Harity.
+  destruct g as [k qs as_]. cbn [gk gqs gas] in *. subst as_.
+  pose proof (local_sound2 rho0 rho0_unit (pi_of qs) (pi_of_inj qs (nodupb_NoDup _ Hndq)) (seq 0 (arity k)) _ _ Hinv) as E.
+  cbn [map] in E. rewrite <- !ksem_place in E.
+  assert (Epl : placeg qs (mkG k (seq 0 (arity k)) []) = mkG k qs []).
+  { unfold placeg. cbn [gk gqs gas]. f_equal. rewrite <- Harity. apply map_pi_of_seq. }
+  rewrite Epl in E.
+  set (V := ksem (placeg qs (mkG (inv_kind k) (seq 0 (arity k)) []))) in E.
+  destruct E as [c' [Hc' E]].
+  assert (HV : forall psi, lsem V (lsem U psi) = fun b => c' * psi b).
+  { intros psi. apply functional_extensionality; intros b.
+    change (lsem V (lsem U psi) b) with (csem [ksem (mkG k qs []); V] psi b). rewrite E. reflexivity. }
+  set (one := fun _ : Basis => C1).
+  assert (E1 : c' = e * e * c').
+  { assert (F : lsem V (lsem U one) = lsem V (fun b => e * e * lsem U one b)).
+    { f_equal. apply functional_extensionality; intros b. apply H2. }
+    rewrite lsem_scale, !HV in F. apply (f_equal (fun f => f (fun _ : nat => false))) in F. unfold one in F.
+    transitivity (c' * C1); [ring|]. rewrite F. ring. }
+  assert (Hc0 : c' <> C0).
+  { intros Ez. rewrite Ez in Hc'. unfold Cunit, Cnorm2, C0 in Hc'. cbn in Hc'. lra. }
+  assert (E0 : (e - C1) * (e + C1) = C0).
+  { assert (Ez : (e * e - C1) * c' = C0) by (transitivity (e * e * c' - c'); [ring|rewrite <- E1; ring]).
+    apply C_integral in Ez as [Ez|Ez]; [|contradiction]. transitivity (e * e - C1); [ring|exact Ez]. }
+  apply C_integral in E0 as [E0|E0]; [left|right].
+  - transitivity (e - C1 + C1); [ring|rewrite E0; ring].
+  - transitivity (e + C1 - C1); [ring|rewrite E0; ring].
 Qed.
 
 (* non-Clifford gate kinds are rejected *)
